@@ -16,11 +16,18 @@
 (*   end                  end of a scenario: every started call returned   *)
 (*   reset                next scenario starts from Init                   *)
 (* Everything else the implementation does (SetupCall, SendFromWriteQ,     *)
-(* receive loops, worker pool, FinishCall, MassCancel ...) is unobservable *)
-(* and is matched by the silent steps `Internal` of RpcCalls, at most      *)
-(* MaxSilent of them between two consumed events.  The trace is accepted   *)
-(* iff some interleaving of silent steps explains every event in order:    *)
-(* POSTCONDITION on a TLCSet/TLCGet high-water mark (run with -workers 1). *)
+(* receive loops, worker pool, FinishCall, MassCancel, the moment a Close  *)
+(* or a cut takes effect ...) is unobservable and is matched by the silent *)
+(* steps `Internal` of RpcCalls, at most MaxSilent of them between two     *)
+(* consumed events.  The trace is accepted iff some interleaving of silent *)
+(* steps explains every event in order.  TLC runs with one worker and the  *)
+(* depth-first queue (-Dtlc2.tool.queue.IStateQueue=StateDeque): the       *)
+(* search stops at the first complete explanation (TLCSet("exit", TRUE));  *)
+(* if there is none, the whole search space is exhausted and the           *)
+(* POSTCONDITION reports the high-water mark (TLCSet/TLCGet register 1) =  *)
+(* number of events of the longest explained prefix.                       *)
+(* `sil` is hidden by VIEW; MaxSilent is far above what one scenario needs *)
+(* (it only guards against run-away searches).                             *)
 (***************************************************************************)
 EXTENDS RpcCalls, Json
 
